@@ -6,6 +6,7 @@ import witness
 import codec_rules
 import page_rules
 import xml_rules
+import validation_rules
 
 TECHNIQUE = "MIR provenance of the section header offsets, must-pass-through / dominance order of the section patch protocol, announce/drain pairing table on last_flush, length-accounting dataflow, reader yield-count typestate, bit-width formula agreement of writer and reader, compile-fail witnesses for section interleaving"
 EXPLANATION = (
@@ -16,7 +17,7 @@ EXPLANATION = (
     "stores the point and counts it exactly once on every successful path; size announced and bytes drained per stream are "
     "selected by the same last_flush condition; section_length grows by exactly the packet_length written into the packet "
     "header; every packet is followed by align; the raw iterator yields only while read < records with one increment per "
-    "yield and pops one value per prototype entry in order; writer and reader compute the same bit width. Also the bit-packing rules of C12 (stored form, add_bits decided algebraically, extraction window, append) and the page-reload loop of C11-R6, because a raw value only survives if those hold, and the prototype type-attribute agreement of C04-R4 (an identical prototype needs minimum/maximum/scale/offset written and parsed with the same names and types). Not decided: "
+    "yield and pops one value per prototype entry in order; writer and reader compute the same bit width. Also the bit-packing rules of C12 (stored form, add_bits decided algebraically, extraction window, append) and the page-reload loop of C11-R6, because a raw value only survives if those hold, the validator's pairing of each Is<X>Invalid flag with its own value record (decided on the flow graph pruned under presence assumptions), and the prototype type-attribute agreement of C04-R4 (an identical prototype needs minimum/maximum/scale/offset written and parsed with the same names and types). Not decided: "
     "bit-exactness of the packed values and packet-capacity arithmetic (run-time quantities).")
 
 
@@ -32,6 +33,7 @@ def run(ctx):
     ctx.rule("R9", "the writer's bit width (integer_bits) and the reader's (unpack_ints / unpack_scaled_ints) are the same i128 formula ilog2(max-min)+1")
     ctx.rule("R10", "bit packing on both sides: stored form, add_bits (aligned path and bit loop), extraction window, append keeps tail and phase (shared with C12-R2/R4/R5)")
     ctx.rule("R12", "the prototype comes back identical: type attributes written = read, integer limits parsed as integers (shared with C04-R4)")
+    ctx.rule("R13", "the prototype validator pairs each Is<X>Invalid flag with its own value record <X>: the flag alone is rejected, the pair alone is accepted")
     ctx.rule("R11", "the page reload behind every seek back (PagedWriter::read_current_page) loops over short reads and zero-fills (shared with C11-R6)")
     for cfg in (["lib"] if ctx.tier == "quick" else ["lib", "lib_crc32c"]):
         prog, info = load_program(cfg, "e57")
@@ -51,5 +53,6 @@ def run(ctx):
         page_rules.read_current_page_shape(ctx, prog, "R11")
         if cfg == "lib":
             xml_rules.type_attributes(ctx, prog, "R12")
+        validation_rules.flag_value_pairs(ctx, prog, "R13")
     ctx.cfg = None
     witness.run(ctx, "R8", ["pcw_second_pointcloud", "pcw_blob_while_open", "pcw_image_while_open", "pcw_finalize_while_open"])
